@@ -18,7 +18,7 @@ func init() {
 			ruleParseBinOp(r)
 			ruleParens(r)
 			ruleBinOpPairsMatched(r) // what a parenthesised operand evaluates to: an empty operand yields no pairs
-			ruleSampleBinOp(r)            // what a chain evaluates to: each operator computes its own function of (left, right)
+			ruleSampleBinOp(r)       // what a chain evaluates to: each operator computes its own function of (left, right)
 		},
 	})
 }
